@@ -115,6 +115,7 @@ func (fe *FnExec) unknownCall(fr *frame, st *State, key string, cc *ssa.CallComm
 	for _, a := range full {
 		fe.havocArg(st, a, 0)
 	}
+	fe.lastCallRule(fr, st, full)
 	fe.reestablishArgs(st, full, fe.curArgTypes)
 	if rt == nil {
 		return TupleV{}
@@ -291,6 +292,7 @@ func (fe *FnExec) applyContract(fr *frame, st *State, in ssa.Instruction, site s
 	for _, m := range con.Modifies {
 		fe.havocLvalue(mk(st, pre), st, m)
 	}
+	fe.lastCallRule(fr, st, full)
 	var res Val
 	if rt != nil {
 		res = fe.freshVal(rt, "r."+shortKey(con.Key))
@@ -458,4 +460,75 @@ func (fe *FnExec) inlineCall(fr *frame, st *State, in ssa.Instruction, fv FuncV,
 	*st = *m
 	st.defers = saved
 	return res
+}
+
+// lastCallRule: a function literal with a closure contract was handed to a callee.  The callee may call it any
+// number of times; afterwards the captured cells are either untouched (never called) or in the post-state of
+// its last call, which satisfies the closure's ensures for some parameters, locals and result.
+func (fe *FnExec) lastCallRule(fr *frame, st *State, full []Val) {
+	for _, a := range full {
+		fv, ok := a.(FuncV)
+		if !ok || fv.Fn == nil || fv.Fn.Parent() == nil {
+			continue
+		}
+		con := fe.eng.contracts[fnKey(fv.Fn)]
+		if con == nil {
+			continue
+		}
+		// values of the captured cells before the call
+		before := map[string]Val{}
+		var cells []PtrV
+		for i, b := range fv.Bind {
+			if p, ok := b.(PtrV); ok && i < len(fv.Fn.FreeVars) {
+				before[fv.Fn.FreeVars[i].Name()] = fe.load(st, p)
+				cells = append(cells, p)
+			}
+		}
+		called := fe.fresh("cb.called", "Bool")
+		var last Val = BoolV{fe.fresh("cb.result", "Bool")}
+		if fv.Fn.Signature.Results().Len() == 1 && !isBool(fv.Fn.Signature.Results().At(0).Type()) {
+			last = fe.freshVal(fv.Fn.Signature.Results().At(0).Type(), "cb.result")
+		}
+		fe.cbInfo[fv.Fn] = &cbState{called: called, last: last}
+		// havoc the captured cells
+		after := map[string]Val{}
+		oldB := map[string]Val{}
+		for i, b := range fv.Bind {
+			p, ok := b.(PtrV)
+			if !ok || i >= len(fv.Fn.FreeVars) {
+				continue
+			}
+			name := fv.Fn.FreeVars[i].Name()
+			nv := fe.freshVal(p.Pointee, "cb."+name)
+			fe.store(st, p, nv)
+			after[name] = nv
+			oldB[name] = fe.freshVal(p.Pointee, "cbold."+name)
+			// never called: unchanged
+			fe.assume(tImp(tAnd(st.pc, tNot(called)), fe.valEq(nv, before[name])), "closure never called: captured "+name+" unchanged")
+		}
+		ctx := &EvalCtx{fe: fe, st: st, old: st, binds: map[string]Val{}, pkg: fe.pkg, conFile: con.File, lazyFn: fv.Fn, oldBinds: oldB}
+		for k, v := range after {
+			ctx.binds[k] = v
+		}
+		ctx.binds["result"] = last
+		ctx.binds["result0"] = last
+		for _, l := range con.Lets {
+			for _, n := range l.Names {
+				if n != "_" {
+					ctx.binds[n] = fe.letFresh(con, l, n)
+				}
+			}
+		}
+		// the closure's requires must hold when the callee first calls it
+		pctx := &EvalCtx{fe: fe, st: st, old: st, binds: map[string]Val{}, pkg: fe.pkg, conFile: con.File, lazyFn: fv.Fn}
+		for k, v := range before {
+			pctx.binds[k] = v
+		}
+		for _, rq := range con.Requires {
+			fe.oblige(fr, fmt.Sprintf("closure[%s].pre:%s", fv.Fn.Name(), rq.Label), rq.Props, st.pc, pctx.evalBool(rq.X), fe.curInstr.Pos(), rq.Src)
+		}
+		for _, en := range con.Ensures {
+			fe.assume(tImp(tAnd(st.pc, called), ctx.evalBool(en.X)), "last call of the closure satisfies its ensures "+en.Label)
+		}
+	}
 }
